@@ -85,6 +85,19 @@ UdqAssign(q, v) == AddKw([kw |-> "UDQ", q |-> q, v |-> v]) /\ UNCHANGED st
 Tuning(v) == AddKw([kw |-> "TUNING", v |-> v]) /\ UNCHANGED st
 Nextstep(v) == AddKw([kw |-> "NEXTSTEP", v |-> v]) /\ UNCHANGED st
 Rptrst(v) == AddKw([kw |-> "RPTRST", v |-> v]) /\ UNCHANGED st
+\* ACTIONX definition: the body is a sequence of keywords from the alphabet in which the well may be "?"
+\* (the wells matched by the condition); bodies only address existing wells / the match set
+ActionBodies(ws) ==
+    LET W == ws \cup {"?"} IN
+    { <<[kw |-> "WELOPEN", well |-> w, status |-> s, conn |-> <<>>]>> : w \in W, s \in {"OPEN", "SHUT", "STOP"} }
+    \cup { <<[kw |-> "WELTARG", well |-> w, which |-> "ORAT", v |-> v]>> : w \in W, v \in {70, 90} }
+    \cup { <<[kw |-> "WEFAC", well |-> w, f |-> 2], [kw |-> "WELOPEN", well |-> w2, status |-> "SHUT", conn |-> <<>>]>> : w \in W, w2 \in W }
+    \cup { <<[kw |-> "WCONPROD", well |-> w, status |-> "OPEN", cmode |-> "ORAT", orat |-> 120, bhp |-> 60]>> : w \in ws }
+    \cup { <<[kw |-> "GCONPROD", group |-> "G1", orat |-> 700]>>, <<[kw |-> "NEXTSTEP", v |-> 3]>> }
+Actionx(name, body) ==
+    /\ \A n \in 1..Len(body) : ("well" \in DOMAIN body[n] /\ body[n].well # "?") =>
+            (HasWell(body[n].well) /\ st.wells[body[n].well].conns # {})
+    /\ AddKw([kw |-> "ACTIONX", name |-> name, body |-> body]) /\ UNCHANGED st
 \* close the report step
 Tstep == /\ Last < MaxSteps /\ blocks' = Append(blocks, <<>>) /\ UNCHANGED <<st, nkw>>
 
@@ -111,7 +124,8 @@ SNext ==
          \/ \E q \in {"FU1", "WU1"}, v \in {1, 2} : UdqAssign(q, v)
          \/ \E v \in {1, 2} : Tuning(v)
          \/ \E v \in {3, 5} : Nextstep(v)
-         \/ \E v \in {1, 2} : Rptrst(v) )
+         \/ \E v \in {1, 2} : Rptrst(v)
+         \/ \E a \in {"ACT1", "ACT2"} : \E b \in ActionBodies(DOMAIN st.wells) : Actionx(a, b) )
 SSpec == SInit /\ [][SNext]_svars
 \* design-level sanity of the generator: connections and controls only for existing wells
 WellFormed == \A b \in 1..Len(blocks) : \A n \in 1..Len(blocks[b]) :
